@@ -1091,6 +1091,31 @@ theorem parser_kwargs_policy_decides (md : Nat) (lower : PStr → PStr) (b : Bui
   · simp [effectiveOnDup, parseStartTagArg, resolveOnDup, ignoreStr]
   · simp [effectiveOnDup, parseStartTagArg, resolveOnDup]
 
+/-- Builders that are handed one and the same caller-owned `parser_kwargs` dictionary do not influence each other: the
+    setting of the i-th builder is determined by its own keyword and the dictionary as the caller wrote it. -/
+theorem shared_parser_kwargs_independent (pk : Option OnDupArg) (kws : List (Option OnDupArg)) (i : Nat)
+    (hi : i < kws.length) :
+    (buildersSharing pk kws).length = kws.length ∧
+    (buildersSharing pk kws)[i]? = some (effectiveOnDup kws[i] pk) := by
+  simp [buildersSharing, hi]
+
+/-- Documentation of the defect repaired by fixes/C17-parser-kwargs-dict-shared.diff: with the unrepaired constructor a
+    builder given `on_duplicate_attribute="ignore"` left that entry in the caller's dictionary, and the next builder —
+    given no policy at all — ignored duplicates too (first value `x` survives instead of the last, `z`). -/
+theorem shared_parser_kwargs_leaked_old :
+    (buildersSharingOld none [some (.str ignoreStr), none]).map
+        (fun a => (parseStartTagArg 0 pyLower ⟨none, .plain, 1, false⟩ a [112]
+          [([105], some [120]), ([105], some [122])]).map (fun r => match r with
+            | .ok t => t.items
+            | .valueError => []))
+      = [some [([105], .str [120])], some [([105], .str [120])]] ∧
+    (buildersSharing none [some (.str ignoreStr), none]).map
+        (fun a => (parseStartTagArg 0 pyLower ⟨none, .plain, 1, false⟩ a [112]
+          [([105], some [120]), ([105], some [122])]).map (fun r => match r with
+            | .ok t => t.items
+            | .valueError => []))
+      = [some [([105], .str [120])], some [([105], .str [122])]] := by decide +kernel
+
 /-- Whatever a formatter's own `attributes()` hands back (`sel`: any order, any selection of pairs), every pair is
     rendered by `_format_tag` itself: one entry per pair in that order, a list or tuple value joined by single spaces. -/
 theorem custom_attributes_still_joined (md : Nat) (f : FmtCfg) (sel : Items) (l : List PStr)
